@@ -133,11 +133,20 @@ def _colliding_key(krepr: str):
         d = _ast.literal_eval(krepr)
     except Exception:
         return None
-    if not (isinstance(d, tuple) and d[0] == "d" and isinstance(d[1], tuple) and d[1][0] == "lin"):
+    if not (isinstance(d, tuple) and d[0] == "d" and isinstance(d[1], tuple)):
+        return None
+    if d[1][0] in ("min", "max") and "('keys', 'D')" in repr(d[1]):
+        # the extreme key itself (offset 0): always a key of the base
+        return (f"{d[1][0]}(keys)", "whatever its keys are: that key belongs to a conditional of the base")
+    if d[1][0] != "lin":
         return None
     terms, const = d[1][1]
     if len(terms) == 1 and terms[0][1] == 1 and isinstance(terms[0][0], tuple) and terms[0][0][0] == "len" and "('keys', 'D')" in repr(terms[0][0]):
         return (f"len(conditionals){const:+d}", f"of n conditionals one of which is keyed n{const:+d}")
+    if len(terms) == 1 and terms[0][1] == 1 and isinstance(terms[0][0], tuple) and terms[0][0][0] in ("min", "max") and "('keys', 'D')" in repr(terms[0][0]):
+        side = terms[0][0][0]
+        if (side == "min" and const >= 0) or (side == "max" and const <= 0):
+            return (f"{side}(keys){const:+d}", f"keyed by consecutive integers with more than {abs(const)} conditionals")
     return None
 
 
